@@ -48,6 +48,13 @@ NthMatch(p, xs, i, left) ==
     IF i > Len(xs) THEN NoneV
     ELSE IF ApplyPred(p, xs[i]) THEN (IF left = 0 THEN SomeV(xs[i]) ELSE NthMatch(p, xs, i + 1, left - 1))
     ELSE NthMatch(p, xs, i + 1, left)
+RECURSIVE SumAll(_, _), LastMatch(_, _, _), Filter(_, _, _)
+SumAll(xs, i) == IF i > Len(xs) THEN 0 ELSE xs[i].v + SumAll(xs, i + 1)
+LastMatch(p, xs, i) == IF i < 1 THEN NoneV ELSE IF ApplyPred(p, xs[i]) THEN SomeV(xs[i]) ELSE LastMatch(p, xs, i - 1)
+Filter(p, xs, i) == IF i > Len(xs) THEN <<>>
+                    ELSE (IF ApplyPred(p, xs[i]) THEN <<xs[i]>> ELSE <<>>) \o Filter(p, xs, i + 1)
+MinOf(xs) == CHOOSE x \in {xs[j].v : j \in 1..Len(xs)} : \A j \in 1..Len(xs) : x <= xs[j].v
+MaxOf(xs) == CHOOSE x \in {xs[j].v : j \in 1..Len(xs)} : \A j \in 1..Len(xs) : x >= xs[j].v
 Zip2(xs, ys) == [i \in 1..(IF Len(xs) < Len(ys) THEN Len(xs) ELSE Len(ys)) |-> StructV(<<xs[i], ys[i]>>)]
 
 VARIABLES pool, step, r
@@ -93,17 +100,18 @@ Op(rr) ==
     IN IF S = {} THEN Source(rr)
     ELSE
     LET i == Ch(S, rr[1])  e == pool[i]  xs == e.v  n == Len(xs)
-        o == Ch(1..24, rr[2])
+        o == Ch(1..40, rr[2])
     IN
     IF e.inf THEN
         \* operations that are meaningful on an infinite sequence
-        LET q == Ch(1..7, rr[2])
+        LET q == Ch(1..8, rr[2])
         IN IF q = 1 THEN LET k == Ch(0..6, rr[3]) IN NewSeq(SubSeq(xs, 1, k), FALSE, e.ety, Call("take", <<V(i), Lit(k)>>))
            ELSE IF q = 2 /\ n > 16 THEN LET k == Ch(0..4, rr[3]) IN NewSeq(SubSeq(xs, k + 1, n), TRUE, e.ety, Call("skip", <<V(i), Lit(k)>>))
            ELSE IF q = 3 /\ e.ety = "int" THEN LET f == Fns[Ch(1..3, rr[3])]
                                IN NewSeq([j \in 1..n |-> ApplyFn(f, xs[j])], TRUE, "int", Call("map", <<V(i), Lam(f)>>))
            ELSE IF q = 4 THEN LET k == Ch(0..5, rr[3]) IN NewVal(IF e.ety = "int" THEN "int" ELSE "pair", xs[k + 1], Call("get", <<V(i), Lit(k)>>))
            ELSE IF q = 5 THEN NewErr("int", "int", Call("len", <<V(i)>>))
+           ELSE IF q = 8 THEN NewVal("bool", BoolV(TRUE), Call("is_infinite", <<V(i)>>))
            ELSE IF q = 6 /\ SeqEntries(e.ety, FALSE) # {}
                   THEN LET j == Ch(SeqEntries(e.ety, FALSE), rr[3])
                        IN IF Len(pool[j].v) + n >= 12
@@ -171,6 +179,39 @@ Op(rr) ==
       [] o = 23 /\ e.ety = "int" -> LET x == Ch(-2..5, rr[3])
                    IN NewVal("bool", BoolV(\E j \in 1..n : xs[j].v = x), Call("contains", <<V(i), Lit(x)>>))
       [] o = 24 /\ e.ety = "int" -> NewSeq(SortInts(xs), FALSE, "int", Call("sort", <<V(i)>>))
+      \* ---- second batch (std/sequence.md) ----
+      [] o = 25 /\ e.ety = "int" -> LET p == Preds[Ch(1..3, rr[3])]
+                   IN NewVal("bool", BoolV(\A j \in 1..n : ApplyPred(p, xs[j])), Call("all", <<V(i), Lam(p)>>))
+      [] o = 26 /\ e.ety = "int" -> LET p == Preds[Ch(1..3, rr[3])]
+                   IN NewVal("bool", BoolV(\E j \in 1..n : ApplyPred(p, xs[j])), Call("any", <<V(i), Lam(p)>>))
+      [] o = 27 /\ e.ety = "int" -> LET p == Preds[Ch(1..3, rr[3])]
+                   IN NewVal("opt", NthMatch(p, xs, 1, 0), Call("first", <<V(i), Lam(p)>>))
+      [] o = 28 /\ e.ety = "int" -> LET p == Preds[Ch(1..3, rr[3])]
+                   IN NewVal("opt", LastMatch(p, xs, n), Call("last", <<V(i), Lam(p)>>))
+      [] o = 29 /\ e.ety = "int" -> LET a == Ch(-2..3, rr[3])
+                   IN NewVal("int", IntV(a + SumAll(xs, 1)), Call("reduce", <<V(i), Lit(a), [k |-> "raw", src |-> "(a: int, b: int) -> {a + b}"]>>))
+      [] o = 30 /\ e.ety = "int" /\ n >= 1 ->
+                   NewVal("int", IntV(SumAll(xs, 1)), Call("reduce", <<V(i), [k |-> "raw", src |-> "(a: int, b: int) -> {a + b}"]>>))
+      [] o = 31 /\ e.ety = "int" -> LET a == Ch(-2..3, rr[3])
+                   IN NewVal("int", IntV(a + SumAll(xs, 1)), Call("sum", <<V(i), Lit(a)>>))
+      [] o = 32 /\ e.ety = "int" -> LET a == Ch(-2..3, rr[3]) d == Ch({-2, -1, 1, 2, 3}, rr[4])
+                   IN NewSeq([j \in 1..n |-> StructV(<<IntV(a + (j - 1) * d), xs[j]>>)], FALSE, "pair",
+                             Call("enumerate", <<V(i), Lit(a), Lit(d)>>))
+      [] o = 33 /\ n >= 1 -> NewSeq(SubSeq(Repeat(xs, 1 + PL \div n), 1, PL), TRUE, e.ety, Call("repeat", <<V(i)>>))
+      \* bisect: the sequence must start with the items that satisfy the predicate (sorted ints, lt3)
+      [] o = 34 /\ e.ety = "int" -> LET ys == SortInts(xs)
+                   IN NewVal("int", IntV(CountIf("lt3", ys, 1)),
+                             Call("bisect", <<Call("sort", <<V(i)>>), Lam("lt3")>>))
+      [] o = 35 /\ e.ety = "int" /\ n >= 1 -> NewVal("int", IntV(MinOf(xs)), Call("min", <<V(i)>>))
+      [] o = 36 /\ e.ety = "int" /\ n >= 1 -> NewVal("int", IntV(MaxOf(xs)), Call("max", <<V(i)>>))
+      [] o = 37 /\ e.ety = "int" -> NewSeq(Reverse(SortInts(xs)), FALSE, "int", Call("sort_reverse", <<V(i)>>))
+      [] o = 38 -> NewVal("bool", BoolV(FALSE), Call("is_infinite", <<V(i)>>))
+      [] o = 39 /\ e.ety = "int" -> LET p == Preds[Ch(1..3, rr[3])]
+                   IN NewSeq(Filter(p, xs, 1), FALSE, "int", Call("to_array", <<Call("filter", <<V(i), Lam(p)>>)>>))
+      [] o = 40 /\ e.ety = "int" /\ n >= 1 ->
+                   LET RECSUM[j \in 1..n] == IF j = 1 THEN xs[1].v ELSE RECSUM[j - 1] + xs[j].v
+                   IN NewSeq([j \in 1..n |-> IntV(RECSUM[j])], FALSE, "int",
+                             Call("to_array", <<Call("aggregate", <<V(i), [k |-> "raw", src |-> "(a: int, b: int) -> {a + b}"]>>)>>))
       [] OTHER -> Source(rr)
 
 Init == pool = <<>> /\ step = 0 /\ r = <<>>
